@@ -63,7 +63,7 @@ def harvest_oracle(ctx):
     return f
 
 
-def gen_rare_table(R):
+def gen_rare_table(R, force_twin=False):
     """tables built to tempt the floor: rare strings (few entities, many rows), several id columns, thresholds in unusual order"""
     from syndiffix.common import AnonymizationParams, BucketizationParams, SuppressionParams
     lt = R.choice([2, 3, 5, 10, 20])
@@ -80,8 +80,9 @@ def gen_rare_table(R):
     for k in range(R.randint(1, 4)):            # rare strings: held by < lt entities, possibly with very many rows
         ne = R.randint(1, max(1, lt - 1)); rows_per = R.choice([1, 5, 60])
         lab = R.choice(["aaa-rare", "zzz-rare", "mid-rare", "beta-rare", " ", "!first"]) + str(k)
-        if R.random() < 0.35:          # a rare string that differs from a well-populated one only in case / by a trailing blank / by an accent
-            lab = R.choice(["Alpha", "ALPHA", "Beta", "alpha ", "alphá", "Gamma"])
+        if R.random() < 0.35 or (force_twin and k == 0):          # a rare string that differs from a well-populated one only in case / by a trailing blank / by an accent
+            tw = [c for c in commons if c]
+            lab = R.choice([tw[0].capitalize(), tw[0].upper(), tw[0] + " "] if force_twin and tw else ["Alpha", "ALPHA", "Beta", "alpha ", "alphá", "Gamma"])
         for e in range(ne):
             eid += 1
             for _ in range(rows_per):
@@ -111,8 +112,8 @@ def stream_strings(ctx, ntables):
     S = ctx.stream("O-strings", "Synthesizer(rare-string tables with explicit ids, random thresholds incl. low_threshold above the bucketization thresholds, "
                    "single/no/default clustering).sample(): each verbatim string must be held by >= low_threshold distinct entities in every id column; "
                    "non-trivial = table with a string held by fewer entities than low_threshold")
-    for _ in range(ntables):
-        df, pids, ap, bp, lt = gen_rare_table(R)
+    for ti in range(ntables):
+        df, pids, ap, bp, lt = gen_rare_table(R, force_twin=(ti % 3 == 0))
         strat = R.choice([SingleClustering, NoClustering, DefaultClustering])
         try:
             syn = Synthesizer(df, pids=pids, anonymization_params=ap, bucketization_params=bp, clustering=strat()); out = syn.sample()
